@@ -39,7 +39,7 @@ def build_pool(rng, nmin=1, nmax=3):
     """a function that builds a fresh copy of a small model: returns (user vars, constraint list, objective)"""
     spec = []
     for _ in range(rng.randint(nmin, nmax)):
-        spec.append((rng.choice(['aff', 'abs', 'norm', 'exp', 'pos']), rng.choice(['<=', '>=']), rng.randint(1, 3), rng.randint(0, 2),
+        spec.append((rng.choice(['aff', 'abs', 'norm', 'exp', 'pos'] + (['mix', 'mix'] if nmin >= 2 else [])), rng.choice(['<=', '>=']), rng.randint(1, 3), rng.randint(0, 2),
                      float(rng.choice([1, 2, 3]))))
 
     def make():
@@ -57,6 +57,9 @@ def build_pool(rng, nmin=1, nmax=3):
                 cons.append(cl.vector2norm(x[:k + 1 if k < 3 else 3]) <= r)
             elif kind == 'exp':
                 cons.append(cl.weighted_sum_exp(np.array([1.0, 0.5]), x[:2]) <= r + 2)
+            elif kind == 'mix':
+                # atoms of different classes in one constraint (their per-class ids may coincide)
+                cons.append(cl.vector2norm(x[:2]) + cl.weighted_sum_exp(np.array([1.0]), x[j:j + 1]) + clabs(x[2:3] - 1.0)[0] <= r + 4)
             else:
                 cons.append(clpos(x[j] + 0.5) + x[(j + 1) % 3] <= r)
         obj = x[0] + 2 * x[1] - x[2]
@@ -156,11 +159,23 @@ def run_history(rng):
     return case, failure, meta
 
 
+def align_atom_counters():
+    """atom ids are per-class counters; in a fresh process atoms of different classes carry the same ids. Reproduce that state."""
+    from sageopt.coniclifts.operators.abs import Abs
+    from sageopt.coniclifts.operators.exp import Exponential
+    from sageopt.coniclifts.operators.norms import Vector2Norm
+    from sageopt.coniclifts.operators.pos import Pos
+    from sageopt.coniclifts.operators.relent import RelEnt
+    top = max(Abs._ABS_COUNTER_, Exponential._EXPONENTIAL_COUNTER_, Vector2Norm._VECTOR_2_NORM_COUNTER_, Pos._POS_COUNTER_, RelEnt._REL_ENT_COUNTER_)
+    Abs._ABS_COUNTER_ = Exponential._EXPONENTIAL_COUNTER_ = Vector2Norm._VECTOR_2_NORM_COUNTER_ = Pos._POS_COUNTER_ = RelEnt._REL_ENT_COUNTER_ = top
+
+
 def subset_history(rng):
     """shared constraint objects (several of them with EQUAL nonlinear atoms) are built into Problems subset by subset;
     every solve must agree with a freshly built copy of the same subset"""
     import sageopt.coniclifts as cl
     make, spec = build_pool(rng, nmin=2, nmax=4)
+    align_atom_counters()
     x, cons, obj = make()
     steps = []
     for step in range(rng.randint(3, 6)):
